@@ -13,7 +13,7 @@ func init() {
 
 var c05Offsets = []time.Duration{-time.Millisecond, -time.Microsecond, -time.Nanosecond, 0, time.Nanosecond, time.Microsecond, time.Millisecond}
 
-var c05Points = []string{"ext-before-register", "ext-before-first-poll", "rt-before-first-poll", "rt-before-response", "rt-before-repoll", "ext-after-event"}
+var c05Points = []string{"ext-before-register", "ext-before-first-poll", "rt-before-first-poll", "rt-before-response", "rt-before-repoll", "ext-after-event", "rt-mid-upload"}
 
 func scenC05(r *Run, job *Job) {
 	t := r.T
@@ -127,6 +127,11 @@ func scenC05(r *Run, job *Job) {
 			case "rt-before-repoll":
 				if p.IsRT {
 					b.Stalls = map[int]time.Duration{2: long}
+				}
+			case "rt-mid-upload":
+				if p.IsRT {
+					// half of the response body is uploaded, then nothing more
+					b.Script, b.ThenHealthy = []Op{{Kind: "next"}, {Kind: "stalled-upload", Arg: []string{"response", "error"}[t.Draw(2)]}}, false
 				}
 			case "ext-after-event":
 				if !p.IsRT && p.ExtName == firstExt {
